@@ -11,6 +11,18 @@ CLAIMED = {
             'by z3 for all addresses, counts, block extents and contents (no bound). History quantifier closed by induction: each operation '
             'preserves the view relation.', 'A1-A10 of DESIGN 2.2; library models (len, slicing, set/range/issubset, dict); z3/cvc5; pyvc translator. '
             'Executable twin runs are bounded and never counted as proved.', 'contract-based deductive verification (pyvc VC generation from /repo AST + z3/cvc5)', 'DESIGN.md section 4 C18'),
+    'C04': ('proof', 'execute() of FC 1,2,3,4,5,6,15,16,22,23 is proved against the S-REG step function for all requests, all block extents/contents and both '
+            'zero-mode settings: normal responses carry the prescribed values, a write changes exactly the addressed cells of the table selected by the spec '
+            'FC->table map and nothing else (whole-store frame), mask-write uses (cur AND and) OR (or AND NOT and), FC 23 writes before it reads. Callees are '
+            'replaced by contracts that are verified against their bodies. The history quantifier is closed by induction (per-request step lemma + map-model lemma).',
+            'Sequential blocks backing four distinct tables (sparse blocks at block level in C18); A1-A10; z3/cvc5; pyvc translator; S-REG transcription. '
+            'Front-end dispatch to execute() is covered under C09/C12.', 'contract-based deductive verification (pyvc VC generation from /repo AST + z3/cvc5)', 'DESIGN.md section 4 C04'),
+    'C05': ('proof', 'Lemmas over wire bytes (PDU -> ServerDecoder.decode -> execute) for every function code and reason: quantity outside limits -> 03, byte count '
+            'contradicting quantity -> 03, FC5 value not 0000/FF00 -> 03, range outside table -> 02, unassigned function code -> 01, each with fc|0x80, and '
+            'exception => all four tables unchanged, FC 23 writes only if both ranges are valid. Two known findings (FC5 value, FC15 truncated quantity) are '
+            'proved on the complement of their regions and their witnesses replayed on every run.',
+            'PDUs of the exact length their function code defines (other lengths: C12). Datastore-failure -> 04 is proved in the front-end units (C09/C12). '
+            'A1-A10; z3/cvc5; pyvc translator.', 'contract-based deductive verification (pyvc VC generation from /repo AST + z3/cvc5)', 'DESIGN.md section 4 C05'),
 }
 NOT_YET = 'check not built yet at this commit (planned: contract-based, see DESIGN.md section 4)'
 ALL = ['C%02d' % i for i in range(1, 21)]
